@@ -5,9 +5,9 @@ package redis
 // Contracts for the deductive verifier in /verif (gocv). Comment-only file,
 // compiled only under the `verif` build tag.
 //
-// Redis backend, C02 last sentence only: "every successful write gives the record a version never handed out
-// before".  There is no model of the Redis server here (its atomicity, TTL and scan live in the server and in
-// go-redis: the commands are assumed contracts returning arbitrary results).  What is checked: every record that
+// Redis backend: the client's half of C02/C03/C06/C07.  There is no model of the Redis server here (its atomicity, TTL and scan live in the server and in
+// go-redis: the commands are assumed contracts returning arbitrary results, which log in ghost state what was issued
+// and what the server answered).  C02 "every successful write gives the record a version never handed out before": every record that
 // is encoded for a write command (rec2db is called for nothing else) carries a version that was not yet issued
 // when the method was entered - i.e. one this very call obtained from ulidutils.NewID.
 //
@@ -32,9 +32,12 @@ package redis
 //@ assumed func rKey(key string) string
 //@   ensures r0 == rkeyOf(key)
 //@ assumed func rKeys(keys []string) []string
+// "redis: nil" (key absent) is the documented ErrNotExist, every other error is handed on unchanged
 //@ func checkErr(err error) error
-//@   props C02
+//@   props C02 C03 C06 C07
 //@   ensures (r0 == nil) == (err == nil) && (r0 == err || r0 == errors.ErrNotExist)
+//@   ensures err != nil && errText(err) == "redis: nil" ==> r0 == errors.ErrNotExist
+//@   ensures err != nil && errText(err) != "redis: nil" ==> r0 == err
 // [C06] the TTL of a record: none without ExpiresAt, else the remaining life time, at least a millisecond
 //@ func expiration(eat *time.Time, curT time.Time) time.Duration
 //@   props C06
@@ -44,8 +47,14 @@ package redis
 //@ func (c *client) Create(ctx context.Context, record kvs.Record) (string, error)
 //@   props C02 C03 C06
 //@   requires c != nil && c.rdb != nil
-//@   modifies issued, clock, redisGets, encHas, encAt, encExpiring
+//@   modifies issued, clock, redisGets, encHas, encAt, encExpiring, rwkey, nsetnx, nset, nmset, ndel, ntxset, setnxWon, lastIntOK, lastInt
 //@   ensures r1 == nil ==> !in(r0, old(issued)) && r0 != ""
+// [C02] "of several racing creators exactly one succeeds", the client's half: the only write command of Create is one
+// SETNX for the record's key, and Create succeeds only if the server answered that this SETNX did set the key
+//@   ensures [C02] setnx: nset == old(nset) && nmset == old(nmset) && ntxset == old(ntxset) && ndel == old(ndel) && nsetnx <= old(nsetnx) + 1
+//@   ensures [C02] setnx: r1 == nil ==> nsetnx == old(nsetnx) + 1 && rwkey == rkeyOf(record.Key) && setnxWon
+//@   ensures [C03] errexist: r1 == errors.ErrExist ==> nsetnx == old(nsetnx) + 1 && !setnxWon
+//@   ensures [C03] errexist: r1 != nil ==> r1 == errors.ErrExist || r1 == errors.ErrNotExist || !isClass(r1)
 // [C03] "Create fails with ErrExist and reports the stored version": the stored record is looked up, and a version
 // reported with ErrExist was decoded from a value read for this record's key
 //@   ensures [C03] existing: r1 == errors.ErrExist ==> redisGets > old(redisGets)
@@ -54,13 +63,17 @@ package redis
 //@ func (c *client) Put(ctx context.Context, record kvs.Record) (kvs.Record, error)
 //@   props C02 C06
 //@   requires c != nil && c.rdb != nil
-//@   modifies issued, clock, encHas, encAt, encExpiring
+//@   modifies issued, clock, encHas, encAt, encExpiring, rwkey, nsetnx, nset, nmset, ndel, ntxset, setnxWon, lastIntOK, lastInt
 //@   ensures !in(r0.Version, old(issued)) && forall(v, string, in(v, old(issued)) ==> in(v, issued))
+// [C03] "Put stores what was given under a new version": one SET for the record's key, the record handed back is the
+// one given but for the version
+//@   ensures [C03] stored: nset == old(nset) + 1 && nsetnx == old(nsetnx) && nmset == old(nmset) && ndel == old(ndel) && rwkey == rkeyOf(record.Key)
+//@   ensures [C03] stored: r0.Key == record.Key && r0.ExpiresAt == record.ExpiresAt && r0.Value == record.Value
 
 //@ func (c *client) PutMany(ctx context.Context, records []kvs.Record) error
 //@   props C02 C06
 //@   requires c != nil && c.rdb != nil
-//@   modifies issued, clock, encHas, encAt, encExpiring
+//@   modifies issued, clock, encHas, encAt, encExpiring, rwkey, nsetnx, nset, nmset, ndel, ntxset, setnxWon, lastIntOK, lastInt
 //@   loop 1
 //@     invariant c != nil && c.rdb != nil && forall(v, string, in(v, old(issued)) ==> in(v, issued)) && records == records0 && 0 - 1 <= rangeindex && rangeindex <= len(records) - 1 && fresh(mset) && encExpiring == old(encExpiring)
 //@   loop 2
@@ -74,3 +87,44 @@ package redis
 // [C02] single CAS winner, the client's half: the body succeeds (and writes) only if the version the caller expects
 // is the version decoded from a value it read through the watching transaction for this very key
 //@   ensures [C02] cas: r0 == nil ==> readKey(verSource(old(record.Version))) == *key
+
+// [C03] "Get returns the last written key, value, version": what Get hands out was decoded from a value read for the
+// prefixed key, under the caller's key; an absent key is ErrNotExist; one GET per call
+//@ ghostglobal lastGotErr error
+//@ ghostglobal lastGotVer string
+//@ ghostglobal lastGotKey string
+//@ func (c *client) Get(ctx context.Context, key string) (kvs.Record, error)
+//@   props C03 C07
+//@   requires c != nil && c.rdb != nil
+//@   modifies redisGets, lastGotErr, lastGotVer, lastGotKey
+//@   ghostexit lastGotErr := r1
+//@   ghostexit lastGotVer := r0.Version
+//@   ghostexit lastGotKey := key
+//@   ensures redisGets == old(redisGets) + 1
+//@   ensures r1 == nil ==> r0.Key == key && readKey(verSource(r0.Version)) == rkeyOf(key)
+//@   ensures r1 != nil ==> r1 == errors.ErrNotExist || !isClass(r1)
+//@   ensures lastGotErr == r1 && lastGotVer == r0.Version && lastGotKey == key
+
+// [C03] "Delete reports ErrNotExist for a missing key": one DEL for the prefixed key; success iff the server removed
+// something, ErrNotExist iff it answered 0
+//@ func (c *client) Delete(ctx context.Context, key string) error
+//@   props C03
+//@   requires c != nil && c.rdb != nil
+//@   modifies rwkey, nsetnx, nset, nmset, ndel, ntxset, setnxWon, lastIntOK, lastInt
+//@   ensures ndel == old(ndel) + 1 && rwkey == rkeyOf(key) && nset == old(nset) && nsetnx == old(nsetnx) && nmset == old(nmset)
+//@   ensures r0 == nil ==> lastIntOK && lastInt != 0
+//@   ensures lastIntOK && lastInt == 0 ==> r0 == errors.ErrNotExist
+//@   ensures !lastIntOK ==> r0 != nil
+
+// [C07], the polling backend: nil only after a Get of this key that showed another version, ErrNotExist only when that
+// Get said so (or the context's error is that very value), anything else is the error of the last Get or of a context
+// that is done
+//@ func (c *client) WaitForVersionChange(ctx context.Context, key string, ver string) error
+//@   props C07
+//@   requires c != nil && c.rdb != nil && ctx != nil
+//@   modifies everything
+//@   ensures r0 == nil ==> lastGotErr == nil && lastGotKey == key && lastGotVer != ver
+//@   ensures r0 == errors.ErrNotExist && ctx.err != errors.ErrNotExist ==> lastGotErr == errors.ErrNotExist && lastGotKey == key
+//@   ensures r0 != nil ==> (r0 == lastGotErr && lastGotKey == key) || (r0 == ctx.err && ctx.err != nil)
+//@   loop 1
+//@     invariant c != nil && c.rdb != nil && ctx != nil && key == key0 && ver == ver0 && 0 < timeout && timeout <= 100000000
